@@ -331,6 +331,7 @@ RunInfo run(const sim::Plan &plan) {
     aws_linked_list_init(&c.staging);
     for (const sim::Op &op : plan.ops) {
         if (op.kind == OP_BEHAV) continue;
+        if (plan.get("poison_errors", 0)) hx::poison_errors(plan.seed, c.ops_done);
         c.ops_done++;
         sim::note(sim::PK_HARNESS, nullptr, op.kind);
         switch (op.kind) {
